@@ -38,12 +38,21 @@ type lookupCircuit struct {
 }
 
 func (c *lookupCircuit) Define(api frontend.API) error {
+	// a wire created early (small id) but solved late (a chain of multiplications) ...
+	deep := api.Mul(c.Vals[2], c.Vals[3])
+	for k := 0; k < 4; k++ {
+		deep = api.Mul(deep, c.Vals[(4+k)%6])
+	}
+	// ... and one created afterwards that is solved in the first level
+	late := api.Mul(c.Vals[0], c.Vals[5])
 	t := logderivlookup.New(api)
 	for i := range c.Vals {
 		t.Insert(c.Vals[i])
 	}
 	t.Insert(api.Add(c.Vals[0], c.Vals[1]))
 	t.Insert(17)
+	// multi-term entry whose deepest wire is not its last term: the lookup must wait for all of them
+	t.Insert(api.Add(deep, late))
 	res := t.Lookup(c.Idx[:]...)
 	rc := rangecheck.New(api)
 	acc := frontend.Variable(0)
@@ -59,16 +68,25 @@ func lookupWitnesses(rng *rand.Rand, p *big.Int, n int) []Wit {
 	var ws []Wit
 	for k := 0; k < n; k++ {
 		var a lookupCircuit
-		vals := make([]*big.Int, 8)
+		vals := make([]*big.Int, 9)
 		for i := 0; i < 6; i++ {
 			vals[i] = big.NewInt(int64(rng.IntN(1 << 30)))
 			a.Vals[i] = vals[i]
 		}
 		vals[6] = new(big.Int).Add(vals[0], vals[1])
 		vals[7] = big.NewInt(17)
+		deep := new(big.Int).Mul(vals[2], vals[3])
+		for k := 0; k < 4; k++ {
+			deep.Mul(deep, vals[(4+k)%6]).Mod(deep, p)
+		}
+		vals[8] = new(big.Int).Add(deep, new(big.Int).Mul(vals[0], vals[5]))
+		vals[8].Mod(vals[8], p)
 		out := new(big.Int)
 		for i := 0; i < 4; i++ {
-			idx := rng.IntN(8)
+			idx := rng.IntN(9)
+			if i == k%4 {
+				idx = 8 // every witness reads the deep entry once
+			}
 			a.Idx[i] = idx
 			out.Add(out, new(big.Int).Mul(vals[idx], big.NewInt(int64(i+1))))
 		}
@@ -80,7 +98,7 @@ func lookupWitnesses(rng *rand.Rand, p *big.Int, n int) []Wit {
 			valid, name = false, "wrong-output"
 		case 3:
 			if k%8 == 7 {
-				a.Idx[rng.IntN(4)] = 8 + rng.IntN(4)
+				a.Idx[rng.IntN(4)] = 9 + rng.IntN(4)
 				valid, name = false, "index-out-of-table"
 			}
 		}
